@@ -321,9 +321,6 @@ package consensus
 //@ extern types.PrivValidator.SignVote
 //@   assigns walSyncedForSign
 //@   sets walSyncedForSign = false when true
-//@ extern types.Vote.ToProto
-//@   assigns nothing
-//@   ensures same: result != nil && result.Height == vote.Height && result.Round == vote.Round && result.Type == vote.Type && result.BlockID.Hash == vote.BlockID.Hash
 //@ func State.voteTime
 //@   trusted
 //@   assigns nothing
@@ -485,3 +482,53 @@ package consensus
 //@   ensures lockrule: (cs.RoundState.Height == old(cs.RoundState.Height) && result1 == nil) ==> ((cs.RoundState.LockedRound == old(cs.RoundState.LockedRound) && cs.RoundState.LockedBlock == old(cs.RoundState.LockedBlock))
 //@     | || (cs.RoundState.LockedRound == -1 && cs.RoundState.LockedBlock == nil && polka(cs, vote.Round) && !types.Block.HashesTo(old(cs.RoundState.LockedBlock), polkaHash(cs, vote.Round)))
 //@     | || (cs.RoundState.LockedRound == vote.Round && polka(cs, vote.Round) && types.Block.HashesTo(cs.RoundState.LockedBlock, polkaHash(cs, vote.Round))))
+
+// ---- C01: the per-node half of agreement - what finalizeCommit hands to the block store and to the application.
+// A block is decided (stored with its seen commit, then executed) only if it is the proposal block held, hashes to the
+// block id for which the precommit set of ONE round (the commit round) reports a two-thirds majority, has all its parts
+// under that id's part-set header, and has just passed ValidateBlock against this node's own state; the seen commit is
+// made from that same precommit set; the END-HEIGHT record is written and synced between the two.
+// RoundStepCommit = 8.
+//@ import fail github.com/tendermint/tendermint/libs/fail
+//@ extern fail.Fail
+//@   assigns nothing
+//@ func State.calculatePrevoteMessageDelayMetrics
+//@   trusted
+//@   assigns nothing
+//@ func State.recordMetrics
+//@   trusted
+//@   assigns nothing
+//@ func State.pruneBlocks
+//@   trusted
+//@   assigns dbstate
+//@ func State.updateToState
+//@   trusted
+//@   assigns except(types.Vote, types.Block), walFresh
+//@ func State.updatePrivValidatorPubKey
+//@   trusted
+//@   assigns cs.privValidatorPubKey
+//@ func State.scheduleRound0
+//@   trusted
+//@   assigns nothing
+//@ extern sm.State.Copy
+//@   assigns nothing
+//@   ensures same: result.LastBlockHeight == state.LastBlockHeight && result.Validators != nil
+//@ ghost var decidedSaved int
+//@ extern sm.BlockStore.SaveBlock
+//@   assigns dbstate, decidedSaved
+//@   sets decidedSaved = ref(arg0) when true
+//@ spec func commitQuorum(cs *State) bool = res1(types.VoteSet.TwoThirdsMajority(cstypes.HeightVoteSet.Precommits(cs.RoundState.Votes, cs.RoundState.CommitRound)))
+//@ spec func commitHash(cs *State) []byte = types.VoteSet.TwoThirdsMajority(cstypes.HeightVoteSet.Precommits(cs.RoundState.Votes, cs.RoundState.CommitRound)).Hash
+//@ func State.finalizeCommit
+//@   requires sync: abciPhase == 0 && (mockActive || appH == cs.state.LastBlockHeight)
+//@   requires fresh: decidedSaved == 0
+//@   atcall BlockStore.SaveBlock decided: arg0 != nil && arg0 == cs.RoundState.ProposalBlock && arg1 == cs.RoundState.ProposalBlockParts && cs.RoundState.Height == height && cs.RoundState.Step == 8 &&
+//@     | commitQuorum(cs) && types.Block.HashesTo(arg0, commitHash(cs)) && blockValidated(arg0, cs.state.Validators, cs.state.LastBlockHeight) &&
+//@     | madeFrom(arg2, cstypes.HeightVoteSet.Precommits(cs.RoundState.Votes, cs.RoundState.CommitRound))
+//@   atcall WAL.WriteSync stored: decidedSaved == ref(block) || imethod(cs.blockStore, Height) >= block.Header.Height
+//@   atcall BlockExecutor.ApplyBlock decided: arg3 != nil && arg3 == cs.RoundState.ProposalBlock && cs.RoundState.Height == height && cs.RoundState.Step == 8 && arg2.Hash == types.Block.Hash(arg3) &&
+//@     | commitQuorum(cs) && types.Block.HashesTo(arg3, commitHash(cs)) && blockValidated(arg3, cs.state.Validators, cs.state.LastBlockHeight) && walFresh
+//@ func State.tryFinalizeCommit
+//@   requires sync: abciPhase == 0 && (mockActive || appH == cs.state.LastBlockHeight)
+//@   requires fresh: decidedSaved == 0
+//@   atcall State.finalizeCommit have: cs.RoundState.Height == height && commitQuorum(cs) && len(commitHash(cs)) != 0 && types.Block.HashesTo(cs.RoundState.ProposalBlock, commitHash(cs))
